@@ -1316,7 +1316,7 @@ fn stream_rel(thorough: bool, seed: u64, out: &mut dyn Write) {
     let ids = product_ids();
     let small: Vec<&String> = ids.iter().step_by(3).collect();
     for a in &small {
-        for k in 0..8 {
+        for k in 0..10 {
             writeln!(out, "route {} {}", hex(a.as_bytes()), k).unwrap();
         }
         for b in &small {
@@ -1390,7 +1390,7 @@ fn stream_rel(thorough: bool, seed: u64, out: &mut dyn Write) {
         }
         if i % 4 == 0 {
             // the same value along a second route through the safe API
-            writeln!(out, "route {} {}", hex(&x), (i / 4) % 8).unwrap();
+            writeln!(out, "route {} {}", hex(&x), (i / 4) % 10).unwrap();
         }
         if i % 40 == 7 {
             // long identifiers against their own canonical text (and near misses of it): 6 to 14 distinct variants
@@ -1430,6 +1430,25 @@ fn stream_rel(thorough: bool, seed: u64, out: &mut dyn Write) {
             let s = render(&mut r, &li, 0);
             let t = render(&mut r, &li, 2);
             writeln!(out, "eqstr {} {}", hex(&t), hex(&s)).unwrap();
+        }
+        if i % 5 == 3 {
+            // the canonical text with `_` in one / every separator position is NOT the canonical text
+            let idt: Vec<Vec<u8>> = a.tokens().into_iter().take(1 + a.script.iter().count() + a.region.iter().count() + a.variants.len()).collect();
+            if idt.len() > 1 {
+                let canon = join(&idt.iter().collect::<Vec<_>>(), b'-');
+                let spelled = render(&mut r, &idt, 2);
+                let all: Vec<u8> = canon.iter().map(|&c| if c == b'-' { b'_' } else { c }).collect();
+                writeln!(out, "eqstr {} {}", hex(&spelled), hex(&all)).unwrap();
+                let pos: Vec<usize> = canon.iter().enumerate().filter(|(_, &c)| c == b'-').map(|(i, _)| i).collect();
+                let mut one = canon.clone();
+                one[pos[r.below(pos.len())]] = b'_';
+                writeln!(out, "eqstr {} {}", hex(&spelled), hex(&one)).unwrap();
+                // ... nor is it in another letter case
+                let up: Vec<u8> = canon.iter().map(|c| c.to_ascii_uppercase()).collect();
+                if up != canon {
+                    writeln!(out, "eqstr {} {}", hex(&spelled), hex(&up)).unwrap();
+                }
+            }
         }
     }
 }
